@@ -7,13 +7,15 @@ cp /repo/go.sum harness/go.sum
 mkdir -p evidence .work
 # syntax/semantic check of every specification module
 fail=0
+JTMP=$(mktemp -d)   # SANY leaves SANY<n> directories in java.io.tmpdir
 for f in spec/*/*.tla; do
   d=$(dirname "$f"); m=$(basename "$f")
-  if ! (cd "$d" && java -cp /opt/veriftools/tla/tla2tools.jar:/opt/veriftools/tla/CommunityModules-deps.jar tla2sany.SANY "$m" >/tmp/.sany.$$ 2>&1); then
+  if ! (cd "$d" && java -Djava.io.tmpdir="$JTMP" -cp /opt/veriftools/tla/tla2tools.jar:/opt/veriftools/tla/CommunityModules-deps.jar tla2sany.SANY "$m" >/tmp/.sany.$$ 2>&1); then
     echo "SANY failed: $f"; tail -5 /tmp/.sany.$$; fail=1
   fi
   rm -f /tmp/.sany.$$
 done
+rm -rf "$JTMP"
 [ $fail = 0 ] || echo "WARNING: some specification modules do not parse (work in progress); their checks will report exit 2"
 # compile the harness (warms the build cache; checks rebuild against /repo on every run anyway)
 (cd harness && go vet -tags verif ./... >/dev/null 2>&1 || true)
